@@ -339,7 +339,7 @@ func verifUniverse() []string {
 	return verifUniverseQuick
 }
 
-// forbidden target/source combinations that would remove the served root
+// forbidden targets that would legitimately remove or replace the served root
 func rootExcluded(r *verifReq) bool {
 	switch r.method {
 	case "DELETE", "MOVE", "PUT", "MKCOL":
@@ -347,9 +347,8 @@ func rootExcluded(r *verifReq) bool {
 			return true
 		}
 	}
-	if (r.method == "COPY" || r.method == "MOVE") && r.dest == 2 && r.di == 0 {
-		return true
-	}
+	// the root as COPY/MOVE destination stays in: it contains every source,
+	// so the request must be refused before anything is touched
 	return false
 }
 
